@@ -603,6 +603,10 @@ def finish(prop, mod, tier, seed, results, t0):
     for line in inconclusive_lines[:40]:
         print(line)
     for r in results:
+        for o in r['obligations']:
+            if o['status'] not in ('unsat', 'sat'):
+                print('INCONCLUSIVE property=%s cfg=%s label=%s solver answered %s%s' % (prop, r['cfg'].get('name'), o['label'], o['status'],
+                                                                                      (' (' + o['error'] + ')') if o.get('error') else ''))
         for n in r['notes']:
             print('INCONCLUSIVE property=%s cfg=%s %s' % (prop, r['cfg'].get('name'), n.splitlines()[0][:300]))
             if 'HARNESS-ERROR' in n:
